@@ -76,6 +76,20 @@ func (v *VerifC13Handler) HandleEventBatch(ctx context.Context, batch events.Eve
 	v.h.HandleEventBatch(ctx, logr.Discard(), batch)
 }
 
+// HandleEventBatchLog is the real HandleEventBatch with the caller's logger (the harness counts the errors the
+// handler records for the batch).
+func (v *VerifC13Handler) HandleEventBatchLog(ctx context.Context, logger logr.Logger, batch events.EventBatch) {
+	v.h.HandleEventBatch(ctx, logger, batch)
+}
+
+// LatestReloadError is latestReloadResult.Error ("" when nil).
+func (v *VerifC13Handler) LatestReloadError() string {
+	if v.h.latestReloadResult.Error == nil {
+		return ""
+	}
+	return v.h.latestReloadResult.Error.Error()
+}
+
 // LatestConfiguration returns what the handler stored as latest configuration.
 func (v *VerifC13Handler) LatestConfiguration() *dataplane.Configuration {
 	return v.h.GetLatestConfiguration()
